@@ -37,7 +37,7 @@ func judgeBurst(r *mon.Rec, t *testing.T, b burstT) {
 	var at time.Duration
 	returned := false
 	var fGot, follow bool
-	var fErr error
+	var fErr, reuseErr error
 	var fNonce int
 	var fAt time.Duration
 	pan, val, st := mon.Guard(func() {
@@ -65,6 +65,12 @@ func judgeBurst(r *mon.Rec, t *testing.T, b burstT) {
 				got, gotMsg, err = c.SendAndRead(context.Background(), dest, f.Request(xid, 0), m)
 				at = time.Since(start)
 				returned = true
+				// its transaction id is reusable at once, also while the receive loop is still parked on the full buffer of
+				// the call that has just returned (the new call may end with its context's error or with one of the stragglers
+				// of the burst: both are in order; being refused is not)
+				cctx, cc := context.WithCancel(context.Background())
+				cc()
+				_, _, reuseErr = c.SendAndRead(cctx, dest, f.Request(xid, 0), nil)
 			}()
 			synctest.Wait()
 			fed := make(chan struct{})
@@ -138,6 +144,10 @@ func judgeBurst(r *mon.Rec, t *testing.T, b burstT) {
 	}
 	if want := time.Duration(b.Pre+1) * b.S; at != want {
 		bad("return-instant", "the call returned at %v, the matcher was done with datagram %d at %v", at, b.Pre+1, want)
+		return
+	}
+	if f.IsInUse(reuseErr) {
+		bad("xid-not-reusable", "a call with the same transaction id right after the return was refused: %v", reuseErr)
 		return
 	}
 	if follow && (fErr != nil || !fGot || fNonce != 900 || fAt != time.Second) {
